@@ -151,7 +151,7 @@ EXTRA_FIELDS = [
 
 def gen_response(tape, method='GET', allow_truncate=False, allow_surplus=True, allow_close_framing=True,
                  allow_nobody_with_length=True, allow_coding=True, allow_lf=True, allow_fold=True,
-                 big_ok=True, content_types=None, surplus_same_read_only=False):
+                 big_ok=True, content_types=None, surplus_same_read_only=False, allow_interim=False):
     r = Resp()
     rng = tape.subrng('resp.rng')
     r.method = method
@@ -292,6 +292,26 @@ def gen_response(tape, method='GET', allow_truncate=False, allow_surplus=True, a
         r.truncate_kind = 'rst' if tape.chance(1, 3, 'trunc.rst') else 'fin'
         r.surplus = b''
     r.hints = sorted(set(h for h in hints if 0 < h < total))
+    if allow_interim and version == 'HTTP/1.1' and not 100 <= status < 200 and tape.chance(1, 10, 'interim'):
+        # interim (1xx) responses before the final one (RFC 7231 6.2): part of the answer to the same request
+        blocks = []
+        for _ in range(tape.between(1, 2, 'interim.n')):
+            blocks.append(tape.choice((b'HTTP/1.1 100 Continue' + eol + eol,
+                                       b'HTTP/1.1 103 Early Hints' + eol + b'Link: </style.css>; rel=preload; as=style' + eol + eol,
+                                       b'HTTP/1.1 102 Processing' + eol + b'X-Progress: 1' + eol + eol), 'interim.kind'))
+        pre = b''.join(blocks)
+        shift = len(pre)
+        r.desc['interim'] = len(blocks)
+        r.desc['interim_status'] = int(blocks[0][9:12])
+        r.head = pre + r.head
+        cuts, acc = [], 0
+        for b in blocks:
+            acc += len(b)
+            cuts += [acc - 1, acc]
+        r.hints = sorted(set(cuts + [h + shift for h in r.hints]))
+        if r.truncate_at is not None:
+            r.truncate_at += shift if tape.chance(3, 4, 'interim.trunc.after') else 0
+        total += shift
     r.desc.update({'status': status, 'method': method, 'version': version, 'framing': framing, 'coding': coding,
                    'payload_len': len(payload), 'lf_only': lf_only, 'surplus': len(r.surplus),
                    'truncate_at': r.truncate_at, 'truncate_kind': r.truncate_kind, 'close_after': r.close_after,
